@@ -1638,6 +1638,34 @@ class Calendar(Component):
         """Return the calendar example with the given name."""
         return cls.from_ical(get_example("calendars", name))
 
+    @classmethod
+    def from_ical(cls, st, multiple=False):
+        """Parse a calendar, also when a VTIMEZONE stands after its first user.
+
+        RFC 5545 does not require a VTIMEZONE to precede the components that
+        reference it.  The first pass caches every VTIMEZONE it meets, so if
+        one follows another component we parse again: the second pass then
+        resolves these forward references instead of leaving the values
+        without a time zone.
+        """
+        comps = super().from_ical(st, multiple=True)
+        for comp in comps:
+            seen_other_component = False
+            for subcomponent in comp.subcomponents:
+                if subcomponent.name != 'VTIMEZONE':
+                    seen_other_component = True
+                elif seen_other_component:
+                    return super().from_ical(st, multiple)
+        if multiple:
+            return comps
+        if len(comps) > 1:
+            raise ValueError(cls._format_error(
+                'Found multiple components where only one is allowed', st))
+        if len(comps) < 1:
+            raise ValueError(cls._format_error(
+                'Found no components where exactly one is required', st))
+        return comps[0]
+
     @property
     def events(self) -> list[Event]:
         """All event components in the calendar.
